@@ -29,6 +29,7 @@ class CompileError(Rejected):
 def record_experiment(spec, lengths, init_seed=0, mode="run", monitor=None, trace="io", jit_step=True, max_records=400, deadline=90):
     """Run len(lengths) episodes of an A-scenario; returns dict(nodes, sup, gs0, episodes=[run_episode results])."""
     g, nodes, sup, gs0 = D.build_graph(spec, clock="sim", rtf=0, trace=trace, max_records=max_records, jit_step=jit_step, init_seed=init_seed)
+    gs0 = D.with_nonce(gs0, nodes, 0)  # the async episodes and the compiled replay start from the very same params
     eps = []
     for e, n in enumerate(lengths):
         m = mode if isinstance(mode, str) else mode[e]
